@@ -14,5 +14,9 @@ OpsA == {[k |-> "push", v |-> 1], [k |-> "ext", vals |-> <<2, 3, 4>>, rep |-> 3]
 OpsB == {[k |-> "push", v |-> 6], [k |-> "get", i |-> 0], [k |-> "get", i |-> 2], [k |-> "count"], [k |-> "ext", vals |-> <<7, 8>>, rep |-> 2]}
 Distinct2 == {<<b, c>> \in OpsB \X OpsB : b # c \/ b.k \in {"get", "count"}}
 ProgsSmall == {[t \in Threads |-> IF t = 1 THEN <<a>> ELSE bc] : a \in OpsA, bc \in Distinct2}
+\* iteration racing with a batch that crosses a bucket boundary and with the lazy allocation of the next bucket
+ProgsSnap == {[t \in Threads |-> IF t = 1 THEN <<a>> ELSE <<[k |-> "snap", start |-> st]>> \o tl] :
+                 a \in {[k |-> "ext", vals |-> <<2, 3, 4>>, rep |-> 3], [k |-> "push", v |-> 1]}, st \in {0, 1},
+                 tl \in {<<>>, <<[k |-> "push", v |-> 6]>>}}
 ProgsLarge == {[t \in Threads |-> IF t = 1 THEN <<a, d>> ELSE bc] : a \in OpsA, d \in {[k |-> "push", v |-> 9], [k |-> "get", i |-> 3]}, bc \in Distinct2}
 =============================================================================
